@@ -30,8 +30,8 @@ RULE = ("2 of 3 runs: 1-12 ACN-Data documents (instants incl. DST transitions, s
         "period, #docs, capped?)")
 PROBES = ["acndata_path", "stochastic_path", "stay_crosses_dst", "max_len_capped", "force_feasible_capped", "fit_used",
           "fit_closed_form_branch", "fit_search_branch", "naive_start", "host_tz_non_utc", "fit_infeasible_inconclusive",
-          "departure_eq_arrival", "request_below_half_deliverable"]
-FAULT_DIMENSION = "host time zone changes (S6); server paging as in C20; no other fault"
+          "departure_eq_arrival", "request_below_half_deliverable", "lenient_server_out_of_window_docs", "arrival_before_start"]
+FAULT_DIMENSION = "host time zone changes (S6); server paging as in C20; lenient server returning documents outside the requested window"
 REAL_VS_STUB = ("real: acndata_events.get_evs/_convert_to_ev, DataClient, acndata.utils, StochasticEvents.generate_events/"
                 "_convert_ev_matrix, batt_cap_fn, EV, Battery, Linear2StageBattery; stub: requests -> fake server; "
                 "GaussianMixture not run (seeded sample override)")
@@ -88,11 +88,21 @@ def gen(rs, tier):
         if fit:
             kwh = max(0.01, deliverable * r.uniform(0.02, 0.9))
             kwh = min(kwh, 55.0)
+            if r.random() < 0.08:
+                kwh = deliverable * r.uniform(0.97, 1.0)     # more than any two-stage pack can absorb in the stay: the fit must refuse
         else:
             kwh = r.choice([round(r.uniform(0.01, 100), 3), deliverable * r.uniform(0.1, 2.5)])
         docs.append({"_id": "d%d" % i, "connectionTime": e, "disconnectTime": e + stay_s, "doneChargingTime": None,
                      "kWhDelivered": max(0.01, round(kwh, 6)), "sessionID": "sess_%d" % i, "spaceID": "CA-%d" % (300 + i),
                      "timezone": r.choice(ZONES), "note": ""})
+    if r.random() < 0.2:
+        # server-side fault: the where-clause is not applied (lenient / clock-skewed server): documents that connected
+        # before the simulation start reach the converter and must still get floor-index arrivals (negative ones)
+        common["lenient_server"] = True
+        for d in docs[: r.randint(1, 3)]:
+            back = r.randint(1, 3 * 86400)
+            d["connectionTime"] = start - back
+            d["disconnectTime"] = d["connectionTime"] + r.randint(60, 86400)
     common.update(path="acndata", docs=docs, pages=[r.choice([0, 1, 2, 5, 100]) for _ in range(r.choice([0, 1, 3]))],
                   start=start, end=start + 40 * 86400, start_zone=r.choice([None, None] + ZONES))
     return common
@@ -179,6 +189,9 @@ def check(sc):
                 from acnportal.acndata import data_client as dc_mod
                 from acnportal.acnsim.events import acndata_events
                 server = FakeServer([serialise(d) for d in sc["docs"]], sc["pages"])
+                server.ignore_where = bool(sc.get("lenient_server"))
+                if server.ignore_where:
+                    out.probe("lenient_server_out_of_window_docs")
                 orig = dc_mod.requests
                 dc_mod.requests = server
                 try:
@@ -204,7 +217,8 @@ def check(sc):
                 finally:
                     dc_mod.requests = orig
                 if evs is not None:
-                    sel = sorted([d for d in sc["docs"] if sc["start"] <= d["connectionTime"] <= sc["end"]], key=lambda d: d["connectionTime"])
+                    sel = sorted([d for d in sc["docs"] if sc.get("lenient_server") or sc["start"] <= d["connectionTime"] <= sc["end"]],
+                                 key=lambda d: d["connectionTime"])
                     if [e.session_id for e in evs] != [d["sessionID"] for d in sel] and len({d["connectionTime"] for d in sel}) == len(sel):
                         out.add("C15/sessions_converted", "got %s expected %s" % ([e.session_id for e in evs], [d["sessionID"] for d in sel]))
                     off = floor_idx(sc["start"], period)
@@ -215,6 +229,8 @@ def check(sc):
                         if d is None:
                             continue
                         a = floor_idx(d["connectionTime"], period) - off
+                        if a < 0:
+                            out.probe("arrival_before_start")
                         dep = floor_idx(d["disconnectTime"], period) - off
                         if sc["max_len"] is not None and dep - a > sc["max_len"]:
                             dep = a + sc["max_len"]
